@@ -12,6 +12,11 @@ JSON front end for the export model (`Model/Export.lean`): driver commands prefi
   Output: `{"sql": […], "out": {"error": e} | {"table": {"elems": […], "wf": b, "print_injective": b}, "column": {…},
   "summary": text, "sections": {source, target, intermediate}, "nstmts": n}}` with `elems` in exactly the JSON shape
   `to_cytoscape` returns.
+`exportfull`: the implementation's OWN combined graph, dumped by `harness/implgraph.py::graph_json` (`{"graph": {"nodes": [{n, tags,
+  payload}…], "edges": [{u, v, type, index}…]}, "nstmts": n, "order": …}`) → the same `out` object as `exportsql`: the model's
+  views, both exports, role lists and summary text computed from that graph.  This is the correspondence that ties
+  `Model/Export.lean` (+ the views and role predicates of `Model/Assemble.lean`) to the code on EVERY real result, corpus
+  included, independently of how well the walk models the analysis of the statement.
 `exportgraph`: `{"nodes": [[node, payload|null]…], "edges": [[u, v]…], "compound": bool}` → `{"elems": […]}` for a graph
   given directly (direct correspondence with `io.to_cytoscape` on hand‑made graphs, no SQL involved).
 -/
@@ -91,6 +96,17 @@ def levelJson (G : LGraph) (l : Level) (hint : Option (List (String × Nat)) × 
 
 def jstrs (l : List String) : Json := .arr (l.map Json.str).toArray
 
+def outJson (G : LGraph) (nStmts : Nat) (j : Json) : Json :=
+  let s := summaryOf nStmts G
+  Json.mkObj [
+    ("table", levelJson G .table (hintOf j "table")),
+    ("column", levelJson G .column (hintOf j "column")),
+    ("summary", .str s.text),
+    ("sections", Json.mkObj [("source", jstrs s.source), ("target", jstrs s.target),
+      ("intermediate", jstrs s.intermediate)]),
+    ("nstmts", .num ⟨nStmts, 0⟩),
+    ("graph_wf", .bool (edgesWFb G && nodupb G.nodes))]
+
 def handleExportSql (j : Json) : Except String Json := do
   let ssJ ← j.getObjValAs? (Array Json) "stmts"
   let ss ← ssJ.toList.mapM IO.Sql.stmtOf
@@ -99,17 +115,15 @@ def handleExportSql (j : Json) : Except String Json := do
   let rendered := ss.map (Render.stmt c.ro)
   let out := match Runner.eval c md ss with
     | .error e => Json.mkObj [("error", .str (IO.Graph.errToString e))]
-    | .ok (G, _) =>
-      let s := summaryOf ss.length G
-      Json.mkObj [
-        ("table", levelJson G .table (hintOf j "table")),
-        ("column", levelJson G .column (hintOf j "column")),
-        ("summary", .str s.text),
-        ("sections", Json.mkObj [("source", jstrs s.source), ("target", jstrs s.target),
-          ("intermediate", jstrs s.intermediate)]),
-        ("nstmts", .num ⟨ss.length, 0⟩),
-        ("graph_wf", .bool (edgesWFb G && nodupb G.nodes))]
+    | .ok (G, _) => outJson G ss.length j
   pure <| Json.mkObj [("sql", jstrs rendered), ("out", out)]
+
+def tagOfName (s : String) : Option Tag := IO.Graph.allTags.find? (fun t => IO.Graph.tagName t == s)
+
+def etypeOfName (s : String) : EType :=
+  match [EType.lineage, .rename, .hasColumn, .hasAlias].find? (fun t => IO.Graph.etypeName t == s) with
+  | some t => t
+  | none => .lineage
 
 /-- payload of a hand‑made node: `{"raw": r, "parents": [[ds, printed]…]}` | `{"alias": a}` | null -/
 def payloadOf : Json → Except String (Option Payload)
@@ -142,5 +156,34 @@ def handleExportGraph (j : Json) : Except String Json := do
     ("elems", .arr ((toCytoscape g compound).map elemToJson).toArray),
     ("wf", .bool (edgesWFb g && nodupb g.nodes)),
     ("print_injective", .bool (decidePrintInjective g compound))]
+
+/-- rebuild an `LGraph` from `implgraph.graph_json`: nodes in iteration order with their tags and key objects, then edges -/
+def graphOfDump (gj : Json) : Except String LGraph := do
+  let nsJ ← gj.getObjValAs? (Array Json) "nodes"
+  let esJ ← gj.getObjValAs? (Array Json) "edges"
+  let mut g : LGraph := Graph.empty
+  for x in nsJ.toList do
+    let n ← IO.Graph.nodeOfJson (← x.getObjVal? "n")
+    let pay ← payloadOf ((x.getObjVal? "payload").toOption.getD .null)
+    g := g.addNode n pay
+    match (x.getObjVal? "tags").toOption with
+    | some (.obj m) =>
+      for (k, v) in m.toList do
+        match tagOfName k, v with
+        | some t, .bool b => g := g.setTag n t b
+        | _, _ => pure ()
+    | _ => pure ()
+  for x in esJ.toList do
+    let u ← IO.Graph.nodeOfJson (← x.getObjVal? "u")
+    let v ← IO.Graph.nodeOfJson (← x.getObjVal? "v")
+    let ty := match (x.getObjVal? "type").toOption with | some (.str t) => etypeOfName t | _ => .lineage
+    let idx := match (x.getObjVal? "index").toOption with | some i => (i.getNat?).toOption | none => none
+    g := g.addEdge u v ty idx
+  pure g
+
+def handleExportFull (j : Json) : Except String Json := do
+  let G ← graphOfDump (← j.getObjVal? "graph")
+  let n := (j.getObjValAs? Nat "nstmts").toOption.getD 0
+  pure <| Json.mkObj [("out", outJson G n j)]
 
 end SqlLineage.IO.Export
